@@ -268,15 +268,27 @@ func (s *Store) CARootSetCAS(idx, cidx uint64, rs []*structs.CARoot) (bool, erro
 	tx := s.db.WriteTxn(idx)
 	defer tx.Abort()
 
-	if err := caRootSetCASTxn(tx, idx, cidx, rs); err != nil {
+	set, err := caRootSetCASVerdictTxn(tx, idx, cidx, rs)
+	if !set || err != nil {
 		return false, err
 	}
 
-	err := tx.Commit()
+	err = tx.Commit()
 	return err == nil, err
 }
 
+// caRootSetCASTxn is caRootSetCASVerdictTxn for callers that only need the
+// error. A nil error does not mean that the roots were written.
 func caRootSetCASTxn(tx WriteTxn, idx, cidx uint64, rs []*structs.CARoot) error {
+	_, err := caRootSetCASVerdictTxn(tx, idx, cidx, rs)
+	return err
+}
+
+// caRootSetCASVerdictTxn replaces the CA roots inside an existing transaction
+// if cidx equals the current index of the roots table. The boolean result
+// reports whether the roots were written: it is false, with a nil error, when
+// the index did not match and nothing was changed.
+func caRootSetCASVerdictTxn(tx WriteTxn, idx, cidx uint64, rs []*structs.CARoot) (bool, error) {
 	// There must be exactly one active CA root.
 	activeCount := 0
 	for _, r := range rs {
@@ -285,24 +297,24 @@ func caRootSetCASTxn(tx WriteTxn, idx, cidx uint64, rs []*structs.CARoot) error 
 		}
 	}
 	if activeCount != 1 {
-		return fmt.Errorf("there must be exactly one active CA")
+		return false, fmt.Errorf("there must be exactly one active CA")
 	}
 
 	// Get the current max index
 	if midx := maxIndexTxn(tx, tableConnectCARoots); midx != cidx {
-		return nil
+		return false, nil
 	}
 
 	// Go through and find any existing matching CAs so we can preserve and
 	// update their Create/ModifyIndex values.
 	for _, r := range rs {
 		if r.ID == "" {
-			return ErrMissingCARootID
+			return false, ErrMissingCARootID
 		}
 
 		existing, err := tx.First(tableConnectCARoots, "id", r.ID)
 		if err != nil {
-			return fmt.Errorf("failed CA root lookup: %s", err)
+			return false, fmt.Errorf("failed CA root lookup: %s", err)
 		}
 
 		if existing != nil {
@@ -316,22 +328,22 @@ func caRootSetCASTxn(tx WriteTxn, idx, cidx uint64, rs []*structs.CARoot) error 
 	// Delete all
 	_, err := tx.DeleteAll(tableConnectCARoots, "id")
 	if err != nil {
-		return err
+		return false, err
 	}
 
 	// Insert all
 	for _, r := range rs {
 		if err := tx.Insert(tableConnectCARoots, r); err != nil {
-			return err
+			return false, err
 		}
 	}
 
 	// Update the index
 	if err := tx.Insert(tableIndex, &IndexEntry{tableConnectCARoots, idx}); err != nil {
-		return fmt.Errorf("failed updating index: %s", err)
+		return false, fmt.Errorf("failed updating index: %s", err)
 	}
 
-	return nil
+	return true, nil
 }
 
 // CAProviderState is used to pull the built-in provider states from the snapshot.
